@@ -9,7 +9,7 @@ TRUST = ("sqlite3, CPython, simplejson, pyfaidx and the OS are trusted; exhausti
 # id -> (engine, technique, level text, design_ref, note)
 CHECKS = {
  "C19": ("E1", "stateless exhaustive enumeration of (old database, new input, force) and of all read-call sequences up to a length bound, with a sqlite statement trace and canonical file comparison",
-         "Every (old database kind, new input, force, input form) combination checks that create_db without force raises and leaves the file's canonical content unchanged and with force equals a fresh import; every sequence of <= 3 (quick) / <= 4 (thorough) of 17 read-style calls on copies of 3 file databases runs under a statement trace (only SELECT/PRAGMA allowed) and the closed file is compared canonically (all tables, counters, dialect, directives) and reopened.",
+         "Every (old database kind, new input, force, input form) combination checks that create_db without force raises and leaves the file's canonical content unchanged and with force equals a fresh import; every sequence of <= 3 (quick) / <= 4 (thorough) of 19 read-style calls on copies of 4 file databases runs under a statement trace (only SELECT/PRAGMA allowed) and the closed file is compared canonically (all tables, counters, dialect, directives) and reopened.",
          "3/C19", "sqlite3's trace callback is trusted to see every statement; byte identity is reported, not judged; " + TRUST),
  "C20": ("E3", "systematic schedule enumeration of real forked processes under a controlled scheduler (all interleavings for 2 imports; pre-emption-bounded for 3 imports and for readers), forced temp-name collisions",
          "Real create_db processes sharing one temp directory are serialised at every temp-directory operation; for six 2-process job sets every interleaving, for three 3-process sets every schedule within 1 (quick) / 2 (thorough) pre-emptions, is executed; each output database is compared canonically with a solitary run and the shared directory must be empty. 2 and 3 concurrent readers of one file are scheduled at connect/statement/commit/row-fetch granularity within a pre-emption bound and must all observe the full content.",
@@ -51,19 +51,19 @@ CHECKS = {
          "Every (record, start<=end, strand, use_strand, FASTA as path/object) over a two-record FASTA is checked against reference slicing/reverse-complement and len(); every set of <= 3 disjoint exons over 6 (quick) / 8 positions x span mismatch x CDS option x strand x name field x argument form x thick/thin goes through bed12() and to_bed12() on a real database and is compared field by field, including the ValueError rule.",
          "3/C18", "thick bounds without thick features and overlapping exons are not demanded; pyfaidx trusted; " + TRUST),
  "C01": ("E1", "stateless exhaustive enumeration of a choice tree (file x configuration) over the real create_db/FeatureDB, compared with the generator's expectation",
-         "Every combination of 36 grammar dialects x 6 file shapes x (line count, checklines) x database kind (:memory:, file, reopened) x merge strategy x sort_attribute_values is imported by the real create_db from a freshly written file; all_features() is compared line by line (columns, extras, ordered attributes, byte-identical print), again after reopening, and the printed features are re-imported and compared canonically.",
+         "Every combination of 48 grammar dialects x 6 file shapes x (line count, checklines) x database kind (:memory:, file, reopened) x merge strategy x sort_attribute_values is imported by the real create_db from a freshly written file; all_features() is compared line by line (columns, extras, ordered attributes, byte-identical print), again after reopening, and the printed features are re-imported and compared canonically.",
          "3/C01", "files satisfy consistency conditions (a)/(b) of DESIGN section 2; unique ids; path input only; " + TRUST),
  "C08": ("E1", "stateless exhaustive enumeration of all strings up to a length bound over fixed alphabets against the real printer/parser",
          "All value strings of length <= 2 (quick) / 3 (thorough) over an 18-symbol alphabet, in 4 placements, under all 72 dialect dictionaries are printed and re-parsed by the real code and compared; every attribute-column string of length <= 6 (quick) / 7 (thorough) over the 9-symbol structural alphabet is parsed with inference and three supplied dialects and must neither raise nor yield non-list values.",
          "3/C08", "arbitrary Unicode beyond the alphabet and longer strings are not covered (small-scope assumption); " + TRUST),
  "C09": ("E1", "stateless exhaustive enumeration of consistent files and of all two-valued line mixtures against the real inference, compared with a reference vote",
-         "For all 36 dialects x shapes x (n, checklines) the dialect reported by DataIterator, FeatureDB (fresh and reopened) and infer_dialect is compared with the generator's dialect; GFF3 vs GTF import semantics are checked per dialect; for 7 dialect-key contrasts every sequence of <= 5 (quick) / 6 (thorough) lines with per-line value and weight is voted by a ten-line reference and compared; supplied dialects must be used verbatim without peeking.",
+         "For all 48 dialects x shapes x (n, checklines) the dialect reported by DataIterator, FeatureDB (fresh and reopened) and infer_dialect is compared with the generator's dialect; GFF3 vs GTF import semantics are checked per dialect; for 7 dialect-key contrasts every sequence of <= 5 (quick) / 6 (thorough) lines with per-line value and weight is voted by a ten-line reference and compared; supplied dialects must be used verbatim without peeking.",
          "3/C09", "both readings of the peek window size (checklines / checklines+1) are accepted for 'order'; " + TRUST),
  "C14": ("E1", "stateless exhaustive enumeration of all line-kind sequences up to a length bound against the real iterator/importer",
-         "Every sequence of <= 4 (quick) / 5 (+ length 6 over a reduced alphabet, thorough) line kinds {##directive, ###, #comment, blank, feature, ##FASTA, >header} x checklines {0,1,10} x {path, from_string} is run through DataIterator (twice), create_db(:memory:) and create_db(file)+reopen; directives and features are compared with a reference classifier written from the statement.",
+         "Every sequence of <= 4 (quick) / 5 (+ all of length 6 for path input with checklines 0 and 1, thorough) line kinds {##directive, ###, #comment, blank, feature, ##FASTA, >header} x checklines {0,1,10} x {path, from_string} is run through DataIterator (twice), create_db(:memory:) and create_db(file)+reopen; directives and features are compared with a reference classifier written from the statement.",
          "3/C14", TRUST),
  "C07": ("E1", "stateless exhaustive enumeration of a choice tree over the real parser/printer, compared with a reference grammar",
-         "Every line of a 36-dialect grammar (attribute shapes, escapes, extra columns, '.' coordinates) up to 3 (quick) / 4 (thorough) attributes is parsed and printed by the real code and compared with the generator's expectation: columns, ordered attributes, inferred dialect, byte-identical print, strict=False space rendering.",
+         "Every line of a 48-dialect grammar (attribute shapes, escapes, extra columns, '.' coordinates) up to 3 (quick) / 4 (thorough) attributes is parsed and printed by the real code and compared with the generator's expectation: columns, ordered attributes, inferred dialect, byte-identical print, strict=False space rendering.",
          "3/C07", "keys are \\w+, escapes upper-case and of reserved characters only; " + TRUST),
  "C12": ("E1", "stateless exhaustive enumeration of a choice tree over the real function, compared with independent bin geometry",
          "All (start,end) pairs over the +-2 (quick) / +-3 (thorough) boundary grid of every bin level, both conventions, both result forms, are evaluated on the real bins() and checked against bin extents computed by arithmetic; all overlapping interval pairs of a sub-grid check bin-in-bin-set; Feature.bin agrees.",
